@@ -28,8 +28,9 @@ META = dict(
     technique='symbolic execution of the real code + z3: linear-arithmetic identities over symbolic polynomial coefficients; inductive step over symbolic memo-table states (membership = solver variable); polynomial identities for spline integrals; lemma-split nlsat query for polyline length',
     bounds=dict(
         quick="rules: 4 families, n <= 8; memo: every (function, n) with n <= 5 from every subset state of the entries with n <= 5; "
-              "Integrate.scalar: mode S degree 0..3 <=2 interior knots with the two Newton-Cotes rules, mode K default rule; "
-              "Integrate.function: nnodes <= 4, symbolic polynomial per span; lenght: polylines with 1-3 segments, symbolic vertices",
+              "Integrate.scalar: mode S degree 0..3 <=2 interior knots with the two Newton-Cotes rules, mode K default rule and each of "
+              "the four methods with its default size (float rules: within 1e-9 for |P_i| <= 1); "
+              "Integrate.function: nnodes <= 4, symbolic polynomial per span; lenght: polylines with 1-5 segments, symbolic vertices, default and each explicit method",
         thorough="rules n <= 12; memo n <= 7; Integrate.scalar all patterns of degree <= 3",
     ),
     assumptions=["polynomial coefficients symbolic reals (|c_j| <= 1 for the float rules, tolerance 1e-12 per unit coefficient)",
@@ -59,12 +60,18 @@ def configs(tier, seed):
         famy = [c for i, c in enumerate(famy) if len(c[1]) <= 3 or (i + seed) % 4 == 0]
     for i, (p, pat) in enumerate(famy):
         meth = ("open-newton-cotes", "closed-newton-cotes")[i % 2]
-        if meth == "closed-newton-cotes" and (p == 0 or any(m == p + 1 for m in pat[1:-1])):
-            meth = "open-newton-cotes"  # the closed rule samples knots: needs a continuous curve and >= 2 nodes
         cfgs.append(dict(name=f"scalar S p={p} mults={pat} {meth}", kind="scalarS", p=p, mults=pat, method=meth, dim=0))
         vals = fam.concrete_values(len(pat), seed, i)
         cfgs.append(dict(name=f"scalar K p={p} mults={pat} vals={[str(v) for v in vals]} default", kind="scalarK", p=p, mults=pat,
                          vals=[str(v) for v in vals], dim=0))
+    # every method with its default number of nodes, on concrete vectors (the float rules within 1e-9 for |P_i| <= 1)
+    for i, (p, pat) in enumerate(famy):
+        if tier == "quick" and len(pat) > 3 and (i + seed) % 2:
+            continue
+        vals = fam.concrete_values(len(pat), seed + 1, i)
+        for meth in FAMILIES:
+            cfgs.append(dict(name=f"scalar K p={p} mults={pat} vals={[str(v) for v in vals]} {meth}", kind="scalarM", p=p, mults=pat,
+                             vals=[str(v) for v in vals], method=meth, dim=0))
     for nn in (1, 2, 3, 4):
         for meth in ("open-newton-cotes", "closed-newton-cotes"):
             if meth == "closed-newton-cotes" and nn < 2:
@@ -72,6 +79,9 @@ def configs(tier, seed):
             cfgs.append(dict(name=f"function nnodes={nn} {meth}", kind="function", nn=nn, method=meth))
     for segs in (1, 2, 3, 4, 5):
         cfgs.append(dict(name=f"lenght polyline {segs} segments", kind="lenght", segs=segs, floats=True))
+    for k, meth in enumerate(FAMILIES):
+        for segs, nn in ((2, None), (3, 2 + k % 2)):
+            cfgs.append(dict(name=f"lenght polyline {segs} segments {meth} nnodes={nn}", kind="lenght", segs=segs, floats=True, method=meth, nn=nn))
     return cfgs
 
 
@@ -222,6 +232,29 @@ def body(env, cfg):
         _memo(env, cfg)
         return
 
+    if kind == "scalarM":
+        p, mults = cfg["p"], cfg["mults"]
+        kv = KV([F(v) for v in cfg["vals"]], mults)
+        P = make_points(env, "P", kv.n, 0)
+        for x in P:
+            env.assume((x <= 1) & (x >= -1))
+        curve = Curve(list(kv.U), P)
+        snap = kmode.snapshot(curve)
+        got = Integrate.scalar(curve, method=cfg["method"])
+        kmode.unchanged(env, curve, snap, "Integrate.scalar")
+        want = 0
+        for i, Pi in enumerate(P):
+            want = want + Pi * ((kv.U[i + p + 1] - kv.U[i]) / (p + 1))
+        env.observe("integral", got)
+        if cfg["method"].endswith("newton-cotes"):
+            env.eq(f"Integrate.scalar({cfg['method']}) == sum_i P_i (u_(i+p+1) - u_i)/(p+1)", got, want)
+        else:
+            d = got - want
+            tol = F(1, 10 ** 9) * max(1, kv.vals[-1] - kv.vals[0])
+            env.holds(f"Integrate.scalar({cfg['method']}) == sum_i P_i (u_(i+p+1) - u_i)/(p+1) within 1e-9 for |P_i| <= 1",
+                      (d <= tol) & (-d <= tol))
+        return
+
     if kind in ("scalarS", "scalarK"):
         p, mults = cfg["p"], cfg["mults"]
         if kind == "scalarS":
@@ -285,10 +318,7 @@ def body(env, cfg):
                 env.assume((x <= 10) & (x >= -10))
         curve = Curve(knots, V)
         snap = kmode.snapshot(curve)
-        if env.sym:
-            got = Integrate.lenght(curve)
-        else:
-            got = Integrate.lenght(curve)
+        got = Integrate.lenght(curve, None, cfg.get("method"), cfg.get("nn"))
         kmode.unchanged(env, curve, snap, "Integrate.lenght")
         if env.sym:
             want = 0
